@@ -190,7 +190,7 @@ def eval_read_case(case):
                 'msg': "schedule %s%s on %d bytes (input %s): scanner rc=%s fatal=%s tokens=%d, model fatal=%s tokens=%d, first difference at token %d: real=%s model=%s%s stderr=%s" % (
                     ",".join(items), " unbuffered" if unbuf else "", len(data), bytes(data).hex()[:80], rrc, rfatal, len(real), mfatal, len(mtoks), k,
                     real[k:k + 2], mtoks[k:k + 2], (" " + rep.group(1)) if rep else "", rerr[:120].replace("\n", " ")),
-                'only_eintr': only_eintr, 'spurious_fatal': rfatal and not mfatal, 'interactive': "-I" in case['flex_opts'],
+                'only_eintr': only_eintr, 'spurious_fatal': rfatal and not mfatal, 'interactive': "always-interactive" in (case.get('extra_options') or []),
                 'sched': ",".join(items), 'input_hex': bytes(data).hex(), 'unbuf': unbuf}))
     return res
 
@@ -371,6 +371,8 @@ def build_cases(rng, tier):
         r = rng.fork("rd%d" % i)
         be = r.weighted([('nr', 4), ('r', 3), ('c99', 3)])
         opts = list(r.pick(OPTS))
+        if i % 3 == 1:
+            opts = [o for o in opts if o not in ("-Cf", "-CF", "-B")]      # always-interactive: documented as incompatible with full tables
         prog = rulesets.gen_program(r, trailing=False, max_scs=0, csize=256)
         inputs = rulesets.gen_inputs(prog, r.fork("in"), count=4, maxlen=r.pick([12, 40, 120]))
         runs = []
@@ -378,7 +380,7 @@ def build_cases(rng, tier):
             kind = ['eintr', 'error', 'mixed', 'eintr'][j % 4]
             runs.append((list(w), gen_schedule(r.fork("s%d" % j), len(w), kind), r.chance(30)))
         cases.append({'id': "r%d" % i, 'kind': 'read', 'prog': prog, 'backend': be, 'flex_opts': opts + ["-8"], 'seed': r.s, 'runs': runs,
-                      'text': '', 'extra_options': (["array"] if r.chance(15) else [])})
+                      'text': '', 'extra_options': (["array"] if r.chance(15) else []) + (["always-interactive"] if i % 3 == 1 else [])})
     m = 30 if tier == "quick" else 600
     for i in range(m):
         r = rng.fork("al%d" % i)
@@ -443,7 +445,7 @@ def main(tier):
         return engine.standard_main(
             PROP, tier, "Properties_C14.v", build_cases,
             "(a) read faults: yyin is a stream whose low-level reads follow a schedule of short reads, EINTR and EIO (buffered and unbuffered "
-            "stdio, batch and interactive scanners, 3 back ends, all table options); tokens, fatal message and exit status are compared with "
+            "stdio, block-read and character-wise (always-interactive) input paths, 3 back ends, all table options); tokens, fatal message and exit status are compared with "
             "the extracted fault machine (coq/Faults.v); (b) allocation faults: for buffer histories (create/scan_*/push beyond the initial "
             "stack/pop/flush/delete/yylex, yylex_init) and stream programs (start-condition stack growth, REJECT state buffer, buffer growth from 2-byte buffers, %array) the k-th yyalloc/yyrealloc request fails, for EVERY k of the history (sampled above 40): "
             "the scanner must stop with the documented message (or yylex_init must return non-zero), its events must be a prefix of the "
